@@ -254,6 +254,7 @@ public:
 	void reset()
 	{
 		dispatch_queue_.clear();
+		deferred_ops_ = 0;
 		map_.clear();
 		stop_ = false;
 		reactor_.reset();
@@ -271,7 +272,8 @@ public:
 	event_loop_impl(int type) :
 		reactor_type_(type),
 		stop_(false),
-		polling_(false)
+		polling_(false),
+		deferred_ops_(0)
 	{
 	}
 	void post(handler const &h)
@@ -418,6 +420,25 @@ private:
 	bool polling_;
 
 	//
+	// Number of set/cancel I/O operations that were queued for the loop
+	// and have not been executed yet. While it is not zero new operations
+	// have to be queued as well, otherwise they would overtake the queued ones
+	// (for example cancel would run before the set it was meant to cancel)
+	//
+	int deferred_ops_;
+
+	struct deferred_op_guard {
+		event_loop_impl *self;
+		bool deferred;
+		~deferred_op_guard()
+		{
+			if(deferred)
+				self->deferred_ops_--;
+		}
+	};
+	friend struct deferred_op_guard;
+
+	//
 	// I/O - selectable events
 	//
 	socket_map<io_data> map_;
@@ -441,9 +462,10 @@ private:
 	struct io_event_canceler {
 		native_type fd;
 		event_loop_impl *self_;
+		bool deferred_;
 		bool cancelation_is_needed_with_data_mutex_locked()
 		{
-			if(!self_->dispatch_queue_.empty())
+			if(!self_->dispatch_queue_.empty() || self_->deferred_ops_ > 0)
 				return true;
 			io_data &cont=self_->map_[fd];
 			if(cont.current_event == 0 && !cont.readable && !cont.writeable) {
@@ -456,6 +478,7 @@ private:
 		void operator()() const
 		{
 			lock_guard l(self_->data_mutex_);
+			deferred_op_guard g = { self_, deferred_ }; 
 			
 			io_data &cont=self_->map_[fd];
 			cont.current_event = 0;
@@ -492,9 +515,11 @@ private:
 		int event;
 		event_handler h;
 		event_loop_impl *self_;
+		bool deferred_;
 		void operator()()
 		{
 			lock_guard l(self_->data_mutex_);
+			deferred_op_guard g = { self_, deferred_ }; 
 			
 			if(!self_->map_.is_valid(fd))
 			{
@@ -570,7 +595,9 @@ private:
 	void set_event(Functor &f)
 	{
 		lock_guard l(data_mutex_);
-		if(polling_ || !reactor_.get()) {
+		if(polling_ || !reactor_.get() || deferred_ops_ > 0) {
+			f.deferred_ = true;
+			deferred_ops_++;
 			dispatch_queue_.push_back(completion_handler(f));
 #ifdef CPPCMS_VERIF
 			verif_enq("defer");
@@ -587,7 +614,9 @@ private:
 		lock_guard l(data_mutex_);
 		if(!f.cancelation_is_needed_with_data_mutex_locked())
 			return;
-		if(polling_ || !reactor_.get()) {
+		if(polling_ || !reactor_.get() || deferred_ops_ > 0) {
+			f.deferred_ = true;
+			deferred_ops_++;
 			dispatch_queue_.push_back(completion_handler(f));
 #ifdef CPPCMS_VERIF
 			verif_enq("defer");
